@@ -333,10 +333,10 @@ Proof.
   destruct (resolve_pending (jfuel W) W o (load_roots W (init_state W) roots)) as [st|st|]; [| |discriminate].
   - intro E. inversion E; subst. cbn [finish jg_slots]. destruct H1 as [_ H1]. apply (av_slots _ (content_loads_ainv st H1)).
   - destruct H1 as [HJ1 _].
-    pose proof (resolve_pending_both o (jfuel W) (load_roots W (restart_state st) roots)
+    pose proof (resolve_pending_both o (jfuel W) (load_roots W (restart_state W st) roots)
                   (load_roots_jinv W Hwf roots _ (restart_jinv W st HJ1))
-                  (load_roots_ainv roots _ (A0 (restart_state st) eq_refl eq_refl))) as H2.
-    destruct (resolve_pending (jfuel W) W o (load_roots W (restart_state st) roots)) as [st2|st2|]; try discriminate.
+                  (load_roots_ainv roots _ (A0 (restart_state W st) eq_refl eq_refl))) as H2.
+    destruct (resolve_pending (jfuel W) W o (load_roots W (restart_state W st) roots)) as [st2|st2|]; try discriminate.
     intro E. inversion E; subst. cbn [finish jg_slots]. destruct H2 as [_ H2]. apply (av_slots _ (content_loads_ainv st2 H2)).
 Qed.
 End A.
